@@ -67,6 +67,11 @@ type Sched struct {
 	running  *thread
 	Trace    []string // thread names in schedule order (for replay files)
 	timeout  time.Duration
+	// LazyLocks: taking a free lock is not a scheduling point (the thread only
+	// parks when the lock is held by another thread). Use when the choice
+	// points that matter are elsewhere (e.g. durable commits) and lock
+	// acquisition order by itself cannot change the outcome.
+	LazyLocks bool
 }
 
 // harness threads of all active executions, by goroutine id. Several
@@ -125,6 +130,17 @@ func BeforeLock(obj any, write bool) bool {
 	s, t := currentThread()
 	if t == nil {
 		return false
+	}
+	if s.LazyLocks {
+		s.mu.Lock()
+		t.pending = &lockOp{obj: obj, write: write}
+		if s.enabled(t) {
+			s.acquire(t)
+			s.mu.Unlock()
+			return true
+		}
+		t.pending = nil
+		s.mu.Unlock()
 	}
 	s.park(t, "lock", &lockOp{obj: obj, write: write})
 	return true
